@@ -36,6 +36,16 @@ pub fn analyze_encoding(array: &dyn Array) -> VectorEncoding {
         return VectorEncoding::Flat;
     }
 
+    // Constant and RLE encoding go through `extract_scalar_value` /
+    // `ConstantArray::to_arrow_array`, which only know these types; everything
+    // else stays flat instead of failing later in `encode_optimal`.
+    if !matches!(
+        array.data_type(),
+        DataType::Int64 | DataType::Float64 | DataType::Utf8
+    ) {
+        return VectorEncoding::Flat;
+    }
+
     // Check for constant array
     if is_constant(array) {
         return VectorEncoding::Constant;
